@@ -254,3 +254,18 @@ def bind_params(mod, root, wanted):
                 out[h.name] = b
                 work.append(h)
     return out
+
+
+def check_api_not_macros(ctx, rep, rid, prefixes):
+    """the API entry points with one of the prefixes are functions, not macros, for a client that includes nsync.h (see build.api_macro_probe)"""
+    from .report import Violation, AnalysisBroken
+    K = ctx.probe
+    names = sorted(k[6:] for k in K if k.startswith('macro_') and k[6:].startswith(tuple(prefixes)))
+    if not names:
+        raise AnalysisBroken('%s: no API name with prefix %s found in the public headers' % (rid, '/'.join(prefixes)))
+    bad = [n for n in names if K['macro_' + n]]
+    rep.instance(rid, 'API names checked for macro interposition: %s' % ', '.join(names)); rep.oblig(rid, not bad)
+    for n in bad:
+        rep.violate(Violation(rid, 'public/ (after #include "nsync.h")',
+            '%s is a preprocessor macro for clients of the public headers: calls no longer go (only) through the function body the rules analyse - a function-like macro can evaluate its arguments more than once and can short-cut the call with its own, unordered, test of the object' % n,
+            site='%s/api-macro' % n))
